@@ -13,6 +13,8 @@ C. failing-input search: the real binary on files of generated lines, one docume
    `s4 --color never -u -d '%Y%m%dT%H%M%S%.9f%z' --tz-offset=...` must print, before every line, the
    instant the text denotes.  Spec = python civil arithmetic (calendar.timegm) cross-checked, case by
    case, against the Coq definitional spec (Spec/CalendarSpec.spec_instant + frozen Spec/TzRef.v).
+   A second class runs WITHOUT --tz-offset under process zones given as POSIX TZ strings (the default zone
+   is the local zone): zone-less timestamps and ambiguous abbreviations, -u and one -l view.
    Notation templates are DERIVED from the documented examples (`_test_cases` string literals of every
    DTPD! entry, scraped): the example line with the captured fields replaced.
 """
@@ -318,7 +320,9 @@ def gen_fields(rng, t, ref, k, thorough_day=None):
     if "frac" in st:
         lo, hi = st["frac"]
         n = rng.randrange(lo, hi + 1)
-        F["frac_digits"] = rng.choice(["0" * n, "9" * n, "".join(rng.choice("0123456789") for _ in range(n)), ("1" + "0" * n)[:n], ("0" * n + "1")[-n:]])
+        # mostly arbitrary digit strings (value-dependent defects show on a small fraction of the values), plus the edges
+        rnd = lambda: "".join(rng.choice("0123456789") for _ in range(n))
+        F["frac_digits"] = rng.choice(["0" * n, "9" * n, rnd(), rnd(), rnd(), rnd(), rnd(), rnd(), ("1" + "0" * n)[:n], ("0" * n + "1")[-n:]])
     else:
         F["frac_digits"] = ""
     z = st.get("tz")
@@ -531,6 +535,7 @@ def run(ctx):
     hist_kind, hist_zone, hist_frac, hist_tz = {}, {}, {}, {}
     distinct = set()
     spec_rows = []        # for the Coq cross-check of the python oracle
+    tpl_seen, tpl_bad = set(), set()
     for f, (rc, out, err) in zip(files, outs):
         t = tpls[f["tpl"]]
         got = out.split(b"\n")
@@ -544,6 +549,7 @@ def run(ctx):
         data = b"\n".join(c["line"] for c in f["cases"]) + b"\n"
         assert data.split(b"\n")[:-1] == [pl for _, pl in phys]
         bad_case = {}
+        tpl_seen.add(f["tpl"])
         for i, (k, pl) in enumerate(phys):
             want = fmt_utc(f["cases"][k]["exp"]).encode() + b":" + pl
             have = got[i] if i < len(got) else b"<no output line> rc=%d %s" % (rc, err[-200:].replace(b"\n", b" "))
@@ -562,6 +568,7 @@ def run(ctx):
             if t["kind"] == "yearless":
                 continue
             if k in bad_case:
+                tpl_bad.add(f["tpl"])
                 want, have = bad_case[k]
                 fail_lines += 1
                 fail_rows[t["row"]] = fail_rows.get(t["row"], 0) + 1
@@ -587,6 +594,69 @@ def run(ctx):
                 ctx.failure(dict(line=c["line"].decode("utf-8", "replace"), tz_offset=f["zone"], table_row=t["row"], source_line=t["line"],
                                  documented_example=t["raw"].decode("utf-8", "replace"), file_lines=[x["line"].decode("utf-8", "replace") for x in f["cases"]][:12]),
                             want.decode("utf-8", "replace")[:60], have.decode("utf-8", "replace")[:120], cls)
+    # ---- C, default zone: NO --tz-offset; the process zone is given as a POSIX TZ string (no tz database needed;
+    #      POSIX sign convention: XYZ-5:45 is UTC+05:45).  Zone-less timestamps and ambiguous abbreviations are read
+    #      in the local zone; -u prints the instant, -l prints the wall clock with the local offset.
+    POSIX_TZ = [("XYZ-5:45", 20700), ("ABC9:30", -34200), ("DEF-1", 3600), ("GHI3", -10800), ("UTC0", 0)]
+    good = [ti for ti in sorted(tpl_seen - tpl_bad) if tpls[ti]["kind"] == "civil" and tpls[ti]["style"].get("year") == 4
+            and not ends_line(tpls[ti]) and tpls[ti].get("lossy_claim") is None and b"\n" not in tpls[ti]["raw"]]
+    zoneless = [ti for ti in good if "tz" not in tpls[ti]["style"]]
+    named = [ti for ti in good if tpls[ti]["style"].get("tz", ("",))[0] == "name"]
+    ambiguous = sorted(n for n, v in ref.items() if v is None)
+    dz_jobs = []
+    for zi, (tzs, tzoff) in enumerate(POSIX_TZ):
+        for pool_, amb in ((zoneless, False), (named, True)):
+            if not pool_ or (amb and not ambiguous):
+                continue
+            ti = pool_[(zi * 7 + rng.randrange(len(pool_))) % len(pool_)]
+            t = tpls[ti]
+            cases = []
+            for k in range(6):
+                F, var = gen_fields(rng, t, ref, k)
+                if amb:
+                    nm = ambiguous[(zi + k) % len(ambiguous)]
+                    z = t["style"]["tz"]
+                    cs = z[1] if not z[2] else rng.choice(["upper", "lower"])
+                    F["tzname"] = nm if cs == "upper" else nm.lower()
+                    F["zone"] = ("name", F["tzname"])
+                cases.append(dict(F=F, line=render(t, F, var), exp=expected_ns(t, F, ref, tzoff)))
+            cases.sort(key=lambda c: c["exp"])
+            dz_jobs.append(dict(tpl=ti, tz=tzs, off=tzoff, cases=cases, local=False, name="dz%d_%d.log" % (zi, int(amb))))
+    if zoneless:
+        ti = zoneless[rng.randrange(len(zoneless))]
+        t = tpls[ti]
+        cases = []
+        for k in range(6):
+            F, var = gen_fields(rng, t, ref, k)
+            cases.append(dict(F=F, line=render(t, F, var), exp=expected_ns(t, F, ref, 20700)))
+        cases.sort(key=lambda c: c["exp"])
+        dz_jobs.append(dict(tpl=ti, tz="XYZ-5:45", off=20700, cases=cases, local=True, name="dz_local.log"))
+
+    def fmt_local(ns, off):
+        s_, n_ = divmod(ns + off * 10 ** 9, 10 ** 9)
+        g = time.gmtime(s_)
+        sign = "-" if off < 0 else "+"
+        return "%04d%02d%02dT%02d%02d%02d.%09d%s%02d%02d" % (g.tm_year, g.tm_mon, g.tm_mday, g.tm_hour, g.tm_min, g.tm_sec, n_,
+                                                             sign, abs(off) // 3600, abs(off) % 3600 // 60)
+    dz_lines = 0
+    for j in dz_jobs:
+        pth = os.path.join(d, j["name"])
+        with open(pth, "wb") as fh:
+            fh.write(b"\n".join(c["line"] for c in j["cases"]) + b"\n")
+        rc, out, err = vlib.run_s4(["--color", "never", "-l" if j["local"] else "-u", "-d", "%Y%m%dT%H%M%S%.9f%z", pth],
+                                   timeout=120, env={"TZ": j["tz"]})
+        got = out.split(b"\n")
+        for i, c in enumerate(j["cases"]):
+            dz_lines += 1
+            pre = fmt_local(c["exp"], j["off"]) if j["local"] else fmt_utc(c["exp"])
+            want = pre.encode() + b":" + c["line"]
+            have = got[i] if i < len(got) else b"<no output line> rc=%d %s" % (rc, err[-200:].replace(b"\n", b" "))
+            if have != want:
+                ctx.failure(dict(line=c["line"].decode("utf-8", "replace"), env_tz=j["tz"], view="-l" if j["local"] else "-u",
+                                 table_row=tpls[j["tpl"]]["row"], file_lines=[x["line"].decode("utf-8", "replace") for x in j["cases"]],
+                                 note="no --tz-offset: the default is the process's local zone (POSIX TZ string)"),
+                            want.decode("utf-8", "replace")[:60], have.decode("utf-8", "replace")[:120], [])
+                break
     # ---- B (continued): the model on the captured groups
     model_dis, unmatched, panics = [], 0, 0
     if outl is None or len(outl) != len(blines):
@@ -668,7 +738,8 @@ def run(ctx):
         files=len(files), kind_histogram=hist_kind, fallback_zone_histogram=hist_zone,
         fraction_digits_histogram={str(k): v for k, v in sorted(hist_frac.items())}, zone_spelling_histogram=hist_tz,
         spec_failures=fail_lines, spec_failures_by_row_and_class=fail_cls, spec_failure_examples=fail_examples[:60], spec_failures_by_table_row={str(k): v for k, v in sorted(fail_rows.items())}, model_cases=len(blines), model_disagreements=len(model_dis), harness_unmatched=unmatched,
-        harness_panics=panics, oracle_cases=len(srows), oracle_disagreements=oracle_dis, **rx_cov)
+        harness_panics=panics, oracle_cases=len(srows), oracle_disagreements=oracle_dis,
+        default_zone_runs=len(dz_jobs), default_zone_lines=dz_lines, default_zone_tz=[z for z, _ in POSIX_TZ], **rx_cov)
     ctx.assumptions += [
         "PARTIAL: the regex crate is MODELLED (Model/Regex.v: capturing, leftmost-first priority, Unicode mode) and the model is tied to the crate by run B on the project's own patterns; the crate itself is not verified, and pattern competition in block-zero analysis is exercised by run C only (known findings F13/F14/F16)",
         "tools/gen/regexes.py parses the compiled pattern strings as regex-syntax does for the constructs the project uses (ScrapeError otherwise); the parser is tied by the same run B and by the conformance patterns",
@@ -692,10 +763,14 @@ def replay(ctx, path):
         if c["line"] not in lines:
             lines = [c["line"]] * 6
         open(p, "wb").write(("\n".join(lines) + "\n").encode("utf-8"))
-        rc, out, err = vlib.run_s4(["--color", "never", "-u", "-d", "%Y%m%dT%H%M%S%.9f%z", "--tz-offset=" + c["tz_offset"], p],
-                                   timeout=120, env={"TZ": "UTC"})
+        if "env_tz" in c:
+            rc, out, err = vlib.run_s4(["--color", "never", c.get("view", "-u"), "-d", "%Y%m%dT%H%M%S%.9f%z", p],
+                                       timeout=120, env={"TZ": c["env_tz"]})
+        else:
+            rc, out, err = vlib.run_s4(["--color", "never", "-u", "-d", "%Y%m%dT%H%M%S%.9f%z", "--tz-offset=" + c["tz_offset"], p],
+                                       timeout=120, env={"TZ": "UTC"})
         got = [l for l in out.decode("utf-8", "replace").split("\n") if l.endswith(c["line"])]
-        print("replay line=%r tz=%s expected=%s got=%s" % (c["line"], c["tz_offset"], f["expected"], got[:1] or "rc=%d" % rc))
+        print("replay line=%r tz=%s expected=%s got=%s" % (c["line"], c.get("env_tz", c.get("tz_offset")), f["expected"], got[:1] or "rc=%d" % rc))
         if not got or not got[0].startswith(f["expected"][:31]):
             bad += 1
     if bad:
